@@ -414,7 +414,15 @@ fn sweep<T: Fam>(ctx: &Ctx, ln: u32, level: usize, pair_limit: usize, triple_lim
             acc.evaluations += 1;
             acc.traces += 1;
             acc.transitions += 1;
-            match de::<T>(doc) {
+            // both entry points: the borrowing one and the reader-based one (owned events, own constructor)
+            let first = match de::<T>(doc) {
+                Ok(b) if b == *v => match crate::props::c06::de_reader::<T>(doc) {
+                    Ok(b2) if b2 == *v => Ok(b2),
+                    other => other.and_then(|x| Err(format!("from_reader gives {:?}", x))),
+                },
+                other => other,
+            };
+            match first {
                 Ok(b) if b == *v => acc.nt_count += 1,
                 other => {
                   if std::env::var("QXMC_TRIAGE").is_ok() {
@@ -460,7 +468,7 @@ pub fn run(ctx: &Ctx) {
          `=`, newline+tab between attributes; XML declaration, DOCTYPE, leading and trailing comment; unknown attribute (first / last) on every tag and unknown child \
          (4 shapes) as first / last child of the root, for types that ignore unknown fields. All single rewrites, and all ordered pairs \
          (second rewrite computed on the rewritten document) for base documents up to the pair limit; thorough: also all ordered triples for base documents up to 48 bytes. Oracle: from_str(rewritten) == \
-         value. non-trivial = every rewritten document; distinct by construction. states = (type, rewrite kind) pairs exercised",
+         value and from_reader(rewritten) == value. non-trivial = every rewritten document; distinct by construction. states = (type, rewrite kind) pairs exercised",
     );
     ctx.assume("blank characters are never replaced by references (a blank may be a simple-list separator); unknown attributes / children are not added where they are data (maps, $value catch-alls)");
     let t = ctx.tier;
